@@ -1,6 +1,7 @@
 import DaskModel.Model.Chunks
 import DaskModel.Lemmas.ChunksNormalize
 import DaskModel.Lemmas.ChunksPlanner
+import DaskModel.Lemmas.ChunksRechunk
 /-!
 # C23 — chunk normalisation and rechunking are exact (theorems)
 
@@ -134,5 +135,67 @@ theorem merge_homogeneous_spec {w n M : Nat} {r : List Nat} (h : mergeHomogeneou
     r.length = M ∧ sum r = n * w ∧ (M ≤ n → ∀ x ∈ r, 0 < x) := mergeHomogeneous_spec h
 
 example : mergeHomogeneous 2 5 2 = some [6, 4] := by rfl
+
+/-! ## Part 3: rechunk — `_breakpoints` / `_intersect_1d` / `old_to_new`, `_compute_rechunk`, multi-stage plans
+
+`Good old 0 new plan` (Lemmas/ChunksRechunk.lean) says: `plan` has one group per new chunk, and the pieces
+`(old_idx, slice(start, stop))` of group `j` are non-empty, lie inside their old chunk, and read consecutive global
+ranges from `cumnew[j]` to `cumnew[j+1]`. -/
+
+/-- **intersect1d_covers**: for *every* pair of positive chunkings of the same length the transliterated
+    `_intersect_1d(_breakpoints(…))` returns a plan that covers each new chunk exactly (proved through an
+    invariant of the state machine over the merged breakpoint list; no bound on sizes). -/
+theorem intersect1d_covers {old new : List Nat} (hpo : ∀ c ∈ old, 0 < c) (hpn : ∀ c ∈ new, 0 < c)
+    (hsum : sum old = sum new) (hne : old ≠ []) :
+    ∃ plan, intersect1d old new = some plan ∧ plan.length = new.length ∧ Good old 0 new plan := by
+  obtain ⟨plan, h1, h2⟩ := intersect1d_good hpo hpn hsum hne
+  exact ⟨plan, h1, h2.length, h2⟩
+
+/-- **rechunk_identity** / **rechunk_exact_chunks**: slicing the old blocks as the plan says and concatenating
+    (what `_compute_rechunk` does) yields exactly the blocks of the *new* chunking of the same data: the requested
+    chunks, unchanged values. -/
+theorem rechunk_identity {α} {old new : List Nat} (xs : List α) (hpo : ∀ c ∈ old, 0 < c) (hpn : ∀ c ∈ new, 0 < c)
+    (hsum : sum old = sum new) (hne : old ≠ []) :
+    rechunk1d old new xs = some (splitBy new xs) := by
+  obtain ⟨plan, h1, h2⟩ := intersect1d_good hpo hpn hsum hne
+  unfold rechunk1d
+  rw [h1, Option.map_some, good_values xs h2, List.drop_zero]
+
+theorem rechunk_values_unchanged {α} {old new : List Nat} (xs : List α) (hpo : ∀ c ∈ old, 0 < c) (hpn : ∀ c ∈ new, 0 < c)
+    (hsum : sum old = sum new) (hne : old ≠ []) (hlen : xs.length = sum old) :
+    ∃ blocks, rechunk1d old new xs = some blocks ∧ blocks.flatten = xs ∧ blocks.length = new.length := by
+  refine ⟨splitBy new xs, rechunk_identity xs hpo hpn hsum hne, splitBy_flatten new xs (by omega), ?_⟩
+  clear hlen hsum hpn
+  induction new generalizing xs with
+  | nil => rfl
+  | cons c cs ih => simp [splitBy, ih]
+
+example : rechunk1d [2, 2, 1] [2, 3] [10, 11, 12, 13, 14] = some [[10, 11], [12, 13, 14]] := by
+  simp [rechunk1d, intersect1d, cumsum0, cumsumFrom, merge, loop, step, finish, applyPlan, splitBy]
+example : intersect1d [10, 10, 10, 10, 10] [25, 5, 20] =
+    some [[⟨0, 0, 10⟩, ⟨1, 0, 10⟩, ⟨2, 0, 5⟩], [⟨2, 5, 10⟩], [⟨3, 0, 10⟩, ⟨4, 0, 10⟩]] := by
+  simp [intersect1d, cumsum0, cumsumFrom, merge, loop, step, finish]
+
+/-- a chunking the planner may use as a stage: non-empty, positive, of the array's length -/
+def StageOK (n : Nat) (cs : List Nat) : Prop := cs ≠ [] ∧ (∀ c ∈ cs, 0 < c) ∧ sum cs = n
+
+/-- **plan_compose**: whatever intermediate stages `plan_rechunk` chooses — as long as each is a valid chunking
+    of the axis, which harness/props/c23.py checks on every real plan — executing the stages one after the other
+    ends with the blocks of the last stage over the unchanged data. -/
+theorem plan_compose {α} (xs : List α) : ∀ (cur : List Nat) (stages : List (List Nat)),
+    StageOK xs.length cur → (∀ s ∈ stages, StageOK xs.length s) →
+    runPlan cur (splitBy cur xs) stages = some (splitBy ((cur :: stages).getLast (by simp)) xs)
+  | cur, [], _, _ => by simp [runPlan]
+  | cur, nxt :: rest, hc, hs => by
+    have hn := hs nxt (by simp)
+    obtain ⟨plan, h1, h2⟩ := intersect1d_good hc.2.1 hn.2.1 (by rw [hc.2.2, hn.2.2]) hc.1
+    have hv := good_values xs h2
+    rw [List.drop_zero] at hv
+    simp only [runPlan, h1, hv]
+    rw [plan_compose xs nxt rest hn (fun s h => hs s (by simp [h]))]
+    simp
+
+example : runPlan [1, 1, 1, 1] (splitBy [1, 1, 1, 1] [5, 6, 7, 8]) [[2, 2], [3, 1], [4]] = some [[5, 6, 7, 8]] := by
+  simp [runPlan, intersect1d, cumsum0, cumsumFrom, merge, loop, step, finish, applyPlan, splitBy]
 
 end Dask.C23
